@@ -306,6 +306,27 @@ static void vegas_cases(report& r, bool thorough)
 
 // ---- MULTI-CHANNEL -----------------------------------------------------------------------------------
 
+// A map that fills the densities together with the coordinates (the documentation allows it) and only returns the
+// jacobian when it is asked for the densities.
+template <typename T>
+struct early_map
+{
+    vf::pl_map<T> inner;
+    T operator()(std::size_t channel, std::vector<T> const& rn, std::vector<T>& coords, std::vector<std::size_t> const& enabled,
+        std::vector<T>& dens, hep::multi_channel_map action) const
+    {
+        if (action == hep::multi_channel_map::calculate_coordinates)
+        {
+            inner(channel, rn, coords, enabled, dens, action);
+            std::vector<T> tmp(dens.size());
+            inner(channel, rn, coords, enabled, tmp, hep::multi_channel_map::calculate_densities);
+            dens = tmp;
+            return T(1);
+        }
+        return inner.jacobian(coords);
+    }
+};
+
 // A map written as a function object with memory: it remembers the coordinates it produced and evaluates the
 // densities and the jacobian at the remembered point (ignoring the buffer it is handed).  Legitimate as long as
 // both requests of a point go to the same map object.
@@ -370,6 +391,11 @@ static void mc_one(report& r, std::string const& id, std::vector<T> const& split
     {
         got = hep::multi_channel_iteration(integrand, n, w, gen).value();
     }
+    else if (entry == 5)
+    {
+        early_map<T> emap{map};
+        got = hep::multi_channel_iteration(hep::make_multi_channel_integrand<T>(lin<T>{cs}, d, emap, d, c), n, w, gen).value();
+    }
     else if (entry == 4)
     {
         // the map keeps state between the two requests of a point
@@ -407,11 +433,11 @@ static void mc_cases(report& r, bool thorough)
         for (auto const& e : comps)
         for (int jac = 0; jac != 4; ++jac)
         for (auto const& cs : integrands(d))
-        for (int entry = 0; entry != 5; ++entry)    // 0 iteration, 1 via checkpoint, 2 unnormalised, 3 integrand reads the weight, 4 remembering map
+        for (int entry = 0; entry != 6; ++entry)    // 0 iteration, 1 via checkpoint, 2 unnormalised, 3 integrand reads the weight, 4 remembering map, 5 densities filled early
         {
             // with the jacobian 1 + y the product f x J must stay linear per cell: constant f in y0 only
             if (jac == 3 && cs[0].second != 0) continue;
-            if (d == 2 && (entry == 2 || entry == 4 || (jac != 0 && jac != 3))) continue;
+            if (d == 2 && (entry == 2 || entry >= 4 || (jac != 0 && jac != 3))) continue;
             int const scale = entry == 2 ? 3 : 1;
             if (entry >= 3 && jac == 2) continue;
             std::string const id = tn + " mc C=" + std::to_string(c) + " d=" + std::to_string(d) + " w8=" + vf::join(e) + " jac=" + std::to_string(jac) + " f=" + show(cs)
